@@ -34,6 +34,7 @@ static void h_run_case(hcase_t* c) {
     rt_name(f, sizeof *f, 1000 + t, sizeof *f);
   }
   rt_reg((void*)&sig.waiter, 8, 503, 8);
+  rt_reg_rest(&sig, sizeof sig, 13900);   /* search mode only: fields the model does not know */
   t1_run(n, prog, c->sched, c->nsched, dmax);
   rt_print_trace();
 }
